@@ -548,7 +548,8 @@ func checkMain(args []string) {
 				}
 				r2, v2 := try(sc)
 				if v2 == nil {
-					die2("nondeterministic harness: violation %s of run %d reproduced with its prelude by index but not with the embedded prelude (see %s)", s, fv.Idx, tmp)
+					werrs = append(werrs, fmt.Sprintf("nondeterministic harness: violation %s of run %d reproduced with its prelude by index but not with the embedded prelude (see %s)", s, fv.Idx, tmp))
+					continue
 				}
 				ro, cv, hashOK = r2, v2, true
 				fv.EventHash = 0
@@ -557,12 +558,14 @@ func checkMain(args []string) {
 			}
 		}
 		if !hashOK {
-			die2("nondeterministic harness: event log of run %d differs between worker (%016x) and fresh replay (%s), also with the worker's earlier runs as prelude (see %s)", fv.Idx, fv.EventHash, ro.EventHash, tmp)
+			werrs = append(werrs, fmt.Sprintf("nondeterministic harness: event log of run %d differs between worker (%016x) and fresh replay (%s), also with the worker's earlier runs as prelude (see %s)", fv.Idx, fv.EventHash, ro.EventHash, tmp))
+			continue
 		}
 		unconfirmed := false
 		if cv == nil {
 			if fv.Violation.Class != "data-race" {
-				die2("nondeterministic harness: violation %s found in run %d does not reproduce from its scenario in a fresh process (see %s)", s, fv.Idx, tmp)
+				werrs = append(werrs, fmt.Sprintf("nondeterministic harness: violation %s found in run %d does not reproduce from its scenario in a fresh process (see %s)", s, fv.Idx, tmp))
+				continue
 			}
 			// the same execution replayed 8 times without the detector reporting again: the worker's report stands
 			// (the detector has no false positives and both stacks are in go-openapi code), it is just not minimised
